@@ -107,7 +107,7 @@ def term(data, ct, cpl, k, x0, b, out):
 def exact_part(ctx):
     rng = ctx.sub('manual')
     cases, metas, casesM, metasM = [], [], [], []
-    nh = 60 if not ctx.thorough else 500
+    nh = 120 if not ctx.thorough else 500
     if ctx.search:
         nh = 200
     for h in range(nh):
